@@ -712,7 +712,13 @@ func buildReply(h *helper, p *replyPlan, req *xmltree.Node, n int) string {
 		// the addressee refuses a presence / message: same id, type error
 		last.set("type", "error")
 		origType = "error"
-		last.add(stanzaErr([]string{"cancel", "auth", "wait"}[r.Intn(3)], []string{"not-authorized", "forbidden", "remote-server-not-found", "service-unavailable"}[r.Intn(4)], []string{"", "refused"}[r.Intn(2)]))
+		if r.Intn(3) > 0 {
+			e, tags := richErr(r)
+			muts = append(muts, tags...)
+			last.add(e)
+		} else {
+			last.add(stanzaErr([]string{"cancel", "auth", "wait"}[r.Intn(3)], []string{"not-authorized", "forbidden", "remote-server-not-found", "service-unavailable"}[r.Intn(4)], []string{"", "refused"}[r.Intn(2)]))
+		}
 	}
 	if class == "error" || class == "error-mutated" {
 		if last.Name == "iq" {
@@ -725,6 +731,11 @@ func buildReply(h *helper, p *replyPlan, req *xmltree.Node, n int) string {
 			}
 			if r.Intn(3) == 0 {
 				e.add(el("too-many-parameters", "urn:example:app"))
+			}
+			if r.Intn(3) > 0 {
+				var tags []string
+				e, tags = richErr(r)
+				muts = append(muts, tags...)
 			}
 			if r.Intn(2) == 0 {
 				last.Kids = nil // errors may or may not echo the request payload
@@ -957,6 +968,11 @@ func runHelperCase(c *core.Case, hc *helperCase) {
 		}
 		classes = append(classes, cl)
 		c.Count("reply_class_"+p.Class, 1)
+		for _, m := range p.Muts {
+			if strings.HasPrefix(m, "err-") {
+				c.Count("reply_"+m, 1)
+			}
+		}
 	}
 	c.Sig("w2|%s|%s|%s", h.name, strings.Join(classes, ","), outcome)
 }
